@@ -254,7 +254,7 @@ func runC03(c *run.Ctx) {
 		{Name: "data-images-ugc-rw", Base: "ugc", Calls: []C{{Op: "AllowDataURIImages"}, {Op: "RewriteSrc", Fn: "proxy"}}},
 		specByName("cmd-email"), specByName("ugc"),
 	})
-	dataAl := []string{"data:", "DATA:", "image/png", "image/svg+xml", "image/gif", "text/html", ";base64,", ";base64", ",", "iVBORw0KGgo=", "AAAA", "AA", " ", "\n", "\r", "\t", "#", "?", "x", "<script>", ";charset=utf-8", "%20", "&#10;", "="}
+	dataAl := dataURIFrags
 	kdat := 4
 	if !c.Quick() {
 		kdat = 5
